@@ -126,7 +126,7 @@ def depq_contracts():
 
 
 DEPQ_FACTS = ["{q}.glen >= 0",
-            "forall(0, {q}.glen - 1, lambda qi: {q}.gkeys[qi] >= {q}.gkeys[qi + 1])",
+            "forall(0, {q}.glen, lambda qi: forall(qi, {q}.glen, lambda qj: {q}.gkeys[qi] >= {q}.gkeys[qj]))",
             "implies({q}.maxlen != 0, {q}.maxlen >= 1 and {q}.glen <= {q}.maxlen)",
             "forall_ref('SearchDataItem', lambda qo: {q}.gcnt[qo] >= 0)",
             # an item with a positive entry count has an entry (DEPQ's own .items bookkeeping)
